@@ -414,6 +414,10 @@ func init() {
 		}
 		pw := run.Rule("PORTABLE-width", "no 64-bit integer is converted to a platform-sized integer (the 32-bit targets would compute something else)", 450).RequireControl(1)
 		checkPortableWidth(c.Prog(cfgs[0]), pw)
+		// a back end may not scribble on the constant tables every caller shares (a serial routine that
+		// negates a table entry in place and restores it is only sequentially equivalent to its twin)
+		globalStoreRule(c, cfgs[0])
+		globalStoreRule(c, "purego")
 		sig := run.Rule("SIB-decision", "functions defined in different files per configuration agree on argument checks, outcome classes and written parameters", 20)
 		run.Sample(checkDecisionSignatures(c, sig, cfgs, stubs))
 		checkKeccakSibling(c, run)
